@@ -3,7 +3,7 @@ from ..core import *
 from .. import harness, gen, pyref
 from ..curve import *
 
-VO = ['Props/C07.vo']
+VO = ['Props/C07.vo', 'Tie/SqrtArk.vo']      # the map calls the table-driven square root: its tie to the source is part of the obligation
 FILES = ['Props/C07.v', 'Proofs/Elligator.v', 'Proofs/Reach.v', 'Proofs/Final.v', 'Tie/Curve.v', 'Proofs/Instance.v']
 
 def inputs(ctx, scale):
@@ -11,6 +11,17 @@ def inputs(ctx, scale):
     rs += [w for _, w in gen.roots_of_unity_q()[:48:3]]
     rs += [gen.rand_field(ctx.rng, Q) for _ in range(60 * scale)]
     rs += [(Q - r) % Q for r in rs[:40]]
+    # inputs whose INNER square-root argument x = num*den has a structured 2-Sylow component (every digit window of the table-driven
+    # square root, the generator of the 2-Sylow group, roots of unity): preimages of those x under r0 -> x (roots of a cubic in zeta*r0^2);
+    # a ratio n/d of the square-root routine corresponds to x = d/n because the map calls sqrt_ratio_zeta(1, x)
+    prng = ctx.rng.fork('preimages'); found = 0
+    for n_, d_ in gen.sqrt_ratio_inputs(prng, 0):
+        if n_ % Q == 0 or d_ % Q == 0: continue
+        for attempt in range(5):      # only the 2-Sylow component matters: vary the odd-order part until the cubic has a usable root
+            u = pow(prng.below(Q - 2) + 2, 2**47, Q) if attempt else 1
+            pre = gen.elligator_preimages(d_ * pow(n_, -1, Q) * u % Q, prng)
+            if pre: rs += pre[:2]; found += 1; break
+        if found >= 60: break
     return rs
 
 def build_scripts(ctx, scale):
